@@ -19,11 +19,19 @@ open Bits
 def hexVal (c : Char) : Nat :=
   if c.isDigit then c.toNat - '0'.toNat else if 'a' ≤ c ∧ c ≤ 'f' then c.toNat - 'a'.toNat + 10
   else if 'A' ≤ c ∧ c ≤ 'F' then c.toNat - 'A'.toNat + 10 else 0
+/-- hex bytes; `R<hh>x<n>.` stands for the byte `hh` repeated `n` (decimal) times -/
 def bytesOfHex (s : String) : List UInt8 :=
-  let rec go : List Char → List UInt8 → List UInt8
-    | a :: b :: rest, acc => go rest (UInt8.ofNat (hexVal a * 16 + hexVal b) :: acc)
-    | _, acc => acc.reverse
-  go s.toList []
+  let rec digits : List Char → Nat → Nat × List Char
+    | c :: rest, n => if c.isDigit then digits rest (n * 10 + (c.toNat - '0'.toNat)) else (n, rest)   -- drops the closing '.'
+    | [], n => (n, [])
+  let rec go : Nat → List Char → List UInt8 → List UInt8
+    | 0, _, acc => acc.reverse
+    | fuel+1, 'R' :: a :: b :: 'x' :: rest, acc =>
+      let (n, rest') := digits rest 0
+      go fuel rest' (List.replicate n (UInt8.ofNat (hexVal a * 16 + hexVal b)) ++ acc)
+    | fuel+1, a :: b :: rest, acc => go fuel rest (UInt8.ofNat (hexVal a * 16 + hexVal b) :: acc)
+    | _, _, acc => acc.reverse
+  go (s.length + 1) s.toList []
 def hexDigit (n : Nat) : Char := if n < 10 then Char.ofNat (48 + n) else Char.ofNat (87 + n)
 def hexOf (bs : List UInt8) : String :=
   String.ofList (bs.flatMap fun b => [hexDigit (b.toNat / 16), hexDigit (b.toNat % 16)])
@@ -323,6 +331,9 @@ def step (st : St) (line : String) : St × String :=
   | ["avcc", h] => (st, avcc (bytesOfHex h))
   | ["avcc"] => (st, avcc [])
   | ["reset"] => ({}, "ok")
+  | ["dump"] =>
+    (st, "sps=[" ++ ",".intercalate ((Ctx.entries st.sps).map fun e => s!"{e.1}:{e.2.levelIdc}") ++ "] pps=[" ++
+         ",".intercalate ((Ctx.entries st.pps).map fun e => s!"{e.1}:{e.2.spsId}:{e.2.numRefIdxL0DefaultActiveMinus1}") ++ "]")
   | ["full", _] => (st, "ok")
   | ["sps", h] => spsOn st (NalSrc.srcOfBytes (bytesOfHex h))
   | ["sps"] => spsOn st (NalSrc.srcOfBytes [])
